@@ -217,6 +217,12 @@ class C10(core.Prop):
         ]
 
     def gen_case(self, rng, i):
+        if rng.random() < 0.08:
+            # the pytest spellings: --write-all, --write KIND [KIND ...] (kinds separate or comma-separated), --wquiet
+            write = None
+            if rng.random() < 0.7:
+                write = [rng.choice(['table', 'graph', 'csv', 'table,graph', 'a,b', 'graph,csv']) for _ in range(rng.randint(1, 2))]
+            return {'kind': 'pytest_opts', 'write_all': rng.random() < 0.5, 'write': write, 'wquiet': rng.random() < 0.3}
         if rng.random() < 0.25:
             return {'kind': 'cmdline', 'argv': c19.gen_argv(rng, 'doc')}
         pre = {}
@@ -230,6 +236,8 @@ class C10(core.Prop):
         return {k: {e: bytes(v) for e, v in d.items()} for k, d in case['pre'].items()}
 
     def model_ops(self, case):
+        if case['kind'] == 'pytest_opts':
+            return []
         if case['kind'] == 'cmdline':
             return [{'op': 'c19.parse_argv', 'argv': case['argv']}]
         ops = []
@@ -266,6 +274,8 @@ class C10(core.Prop):
 
     def nontrivial_key(self, case):
         self.count('kind_' + case['kind'])
+        if case['kind'] == 'pytest_opts':
+            return json.dumps(case, sort_keys=True) if (case['write_all'] or case['write']) else None
         if case['kind'] == 'cmdline':
             return json.dumps(case['argv']) if any(a in case['argv'] for a in ('-w', '--w', '--write', '--write-all', '--W', '-W')) else None
         kinds = {o['op'] for o in case['ops']}
@@ -276,6 +286,37 @@ class C10(core.Prop):
     def oracle(self, case):
         F = []
         fail = lambda clause, detail, key=None: F.append(core.Failure(clause, case, detail, key or clause))
+        if case['kind'] == 'pytest_opts':
+            from tdda.referencetest import referencepytest
+
+            class _Cfg:
+                def getoption(self_, name, default=None):
+                    return {'--write-all': case['write_all'], '--write': case['write'], '--wquiet': case['wquiet']}.get(name, default)
+
+            class _Req:
+                config = _Cfg()
+            saved = dict(ReferenceTest.regenerate)
+            saved_verbose = ReferenceTest.verbose
+            ReferenceTest.regenerate.clear()
+            try:
+                try:
+                    referencepytest.ref(_Req())
+                except Exception as e:   # noqa
+                    fail('pytest-ref-raises', repr(e))
+                    return F
+                table = dict(ReferenceTest.regenerate)
+            finally:
+                ReferenceTest.regenerate.clear()
+                ReferenceTest.regenerate.update(saved)
+                ReferenceTest.verbose = saved_verbose
+            named = [k for w_ in (case['write'] or []) for k in w_.split(',')]
+            for k in ['table', 'graph', 'csv', 'a', 'b', 'other']:
+                w = case['write_all'] or k in named
+                g = should(table, k)
+                if bool(g) != w:
+                    fail('pytest-table', 'pytest options %r: kind %r regenerated=%s expected %s (table %r)'
+                         % ({k_: case[k_] for k_ in ('write_all', 'write')}, k, g, w, table))
+            return F
         if case['kind'] == 'cmdline':
             argv = case['argv']
             want = c19.spec_argv(argv)
